@@ -140,12 +140,21 @@ def load_harness_file(path):
                 var, rng = kv["rep"].split(":")
                 vals = _expand_range(rng)
                 q = set(_expand_range(kv["quick"])) if "quick" in kv else None
+                vals2 = [None]
+                if "rep2" in kv:
+                    var2, rng2 = kv["rep2"].split(":")
+                    vals2 = _expand_range(rng2)
+                q2 = set(_expand_range(kv["quick2"])) if "quick2" in kv else None
                 for v in vals:
-                    t = text.replace("$" + var, str(v))
-                    if q is not None:
-                        tier = "quick" if v in q else "thorough"
-                        t = re.sub(r"(// @h [^\n]*)", lambda m: m.group(1) + f" tier={tier}", t, count=1)
-                    add_block(t)
+                    for v2 in vals2:
+                        t = text.replace("$" + var, str(v))
+                        if v2 is not None:
+                            t = t.replace("$" + var2, str(v2))
+                        if q is not None or q2 is not None:
+                            isq = (q is None or v in q) and (q2 is None or v2 is None or v2 in q2)
+                            tier = "quick" if isq else "thorough"
+                            t = re.sub(r"(// @h [^\n]*)", lambda m: m.group(1) + f" tier={tier}", t, count=1)
+                        add_block(t)
             else:
                 add_block(text)
         cur = []
